@@ -13,7 +13,7 @@ static int stub_noncefp(unsigned char *nonce32, const unsigned char *msg32, cons
     verif_nonce_calls++; g_st_n++;
     g_nf_counter = counter; g_nf_msg32 = msg32; g_nf_key32 = key32; g_nf_algo16 = algo16; g_nf_out = nonce32; g_nf_data = data; g_nf_hctx = NULL;
     if (data != NULL && g_nk < 32) g_nf_data_byte = ((const unsigned char *)data)[g_nk];
-    if (g_nk < 32) g_nf_out_byte = nonce32[g_nk];
+    if (g_nk < 32) { g_nf_out_byte = nonce32[g_nk]; g_nf_msg_byte = msg32[g_nk]; g_nf_key_byte = key32[g_nk]; }
     g_st_ret = nondet_int();
     return g_st_ret;
 }
